@@ -1103,6 +1103,85 @@ pub fn third_table() -> Vec<ThirdCase> {
     out
 }
 
+// ---- a number literal inside a pattern is a number, in whatever base the line writes it -----------------------
+
+/// `{NUMBER:n} frob 2` matches `7 frob 2`, `7 frob 0b10`, `7 frob 0o2` and `7 frob 0x2` alike (and a pattern written
+/// `... 0xFF` matches `... 255`): a literal in a pattern stands for its value
+#[derive(Clone, Debug, Serialize, Deserialize)]
+pub struct LiteralCase {
+    /// the literal inside the pattern: value and base (10, 16, 8, 2)
+    pub value: u32,
+    pub pattern_base: u8,
+    /// base in which the line writes that value
+    pub line_base: u8,
+    pub n: u32,
+    pub n_base: u8,
+}
+
+struct PlusOneRule;
+impl RuleTrait for PlusOneRule {
+    fn name(&self) -> String {
+        "plus one".to_string()
+    }
+    fn call(&self, _config: &SmartCalcConfig, fields: &BTreeMap<String, TokenType>) -> Option<TokenType> {
+        match fields.get("n") {
+            Some(TokenType::Number(n, _)) => Some(TokenType::Number(*n + 1000.0, NumberType::Decimal)),
+            _ => None,
+        }
+    }
+}
+
+pub struct LiteralInPattern;
+
+impl Prop for LiteralInPattern {
+    type Case = LiteralCase;
+    fn shrink_iters(&self) -> u32 {
+        100
+    }
+    fn name(&self) -> &'static str {
+        "number-literal-inside-a-pattern"
+    }
+    fn check(&self, w: &mut Worker, c: &LiteralCase) -> Verdict {
+        let lit = |v: u32, base: u8| crate::c13::Src { n: v as u64, base, frac: None, prefix_upper: false, digit_case: 0, pad: 0 }.text();
+        let pattern = format!("{{NUMBER:n}} frob {}", lit(c.value, c.pattern_base));
+        let line = format!("{} frob {}", lit(c.n, c.n_base), lit(c.value, c.line_base));
+        let rendered = format!("add_rule(en, [{:?}], n + 1000); {:?}", pattern, line);
+        let mut calc = build_calc(&Cfg::default());
+        let rule: Rc<dyn RuleTrait> = Rc::new(PlusOneRule);
+        match guarded(|| calc.add_rule("en".to_string(), vec![pattern.clone()], rule)) {
+            Ok(true) => {}
+            Ok(false) => return Verdict::fail("add_rule returned false".into(), rendered),
+            Err(p) => return Verdict::fail(format!("add_rule panicked at {}: {}", p.site, p.message), rendered),
+        }
+        w.count_eval(1);
+        let out = match eval_on(&calc, "en", &line) {
+            Ok(o) => o,
+            Err(p) => return Verdict::fail(format!("panic at {}: {}", p.site, p.message), rendered),
+        };
+        let want = c.n as f64 + 1000.0;
+        let mut acc = Acc::new();
+        match out.slots.first() {
+            Some(Slot::Ok { v: V::Num(g, _), .. }) if *g == want => {}
+            other => acc.fail(format!("the line matches the pattern (the literal {} is {}), expected what the rule returns ({}), got {:?}", lit(c.value, c.line_base), c.value, want, other.map(|s| s.brief()))),
+        }
+        acc.finish(rendered).nt(c.pattern_base != c.line_base).class("number-literal-inside-a-pattern").class_if(c.pattern_base != c.line_base, "line-writes-the-literal-in-another-base")
+    }
+}
+
+pub fn literal_table() -> Vec<LiteralCase> {
+    let mut out = vec![];
+    for value in [2u32, 7, 10, 255] {
+        for pattern_base in [10u8, 16, 8, 2] {
+            for line_base in [10u8, 16, 8, 2] {
+                for (n, n_base) in [(7u32, 10u8), (18, 16), (5, 2)] {
+                    out.push(LiteralCase { value, pattern_base, line_base, n, n_base });
+                }
+            }
+        }
+    }
+    out
+}
+
 pub fn self_check() {
     let v = crate::vocab::vocab();
     for w in KEYWORDS.iter().chain(UNIT_NAMES.iter()).chain(RULE_NAMES.iter()) {
@@ -1126,6 +1205,7 @@ pub fn run(ctx: &Ctx) {
     ctx.run_table(&NameCollision, "name-collisions", collision_table(), true);
     ctx.run_table(&DeclinedThenAccepted, "two-patterns", two_patterns_table(), true);
     ctx.run_table(&ConvertedRuleResult, "rule-result-converted", third_table(), true);
+    ctx.run_table(&LiteralInPattern, "literal-in-pattern", literal_table(), true);
 }
 
 pub fn replay(w: &mut Worker, sub: &str, case: &serde_json::Value) -> Option<Verdict> {
@@ -1134,6 +1214,7 @@ pub fn replay(w: &mut Worker, sub: &str, case: &serde_json::Value) -> Option<Ver
         "family-reusing-a-built-in-unit-name" => crate::engine::replay_case(&NameCollision, w, case),
         "declined-pattern-then-accepted-pattern" => crate::engine::replay_case(&DeclinedThenAccepted, w, case),
         "rule-result-converted-to-a-base" => crate::engine::replay_case(&ConvertedRuleResult, w, case),
+        "number-literal-inside-a-pattern" => crate::engine::replay_case(&LiteralInPattern, w, case),
         _ => None,
     }
 }
